@@ -267,6 +267,22 @@ impl World {
     }
 }
 
+impl World {
+    /// the Cardano node rolls back `decrement` blocks (as `RuntimeTester::cardano_chain_send_rollback` does)
+    pub async fn blocks_down(&self, decrement: u64) -> bool {
+        let tp = self.time_point().await;
+        let d = decrement.min((*tp.chain_point.block_number).saturating_sub(START_BLOCK)).min((*tp.chain_point.slot_number).saturating_sub(START_SLOT));
+        if d == 0 {
+            return false;
+        }
+        let (Some(slot), Some(block)) = (self.chain_observer.decrease_slot_number(d).await, self.chain_observer.decrease_block_number(d).await) else {
+            return false;
+        };
+        self.block_scanner.add_backward(ChainPoint { slot_number: slot, block_number: block, block_hash: format!("block_hash-{}", *block) });
+        true
+    }
+}
+
 pub type Routes = warp::filters::BoxedFilter<(warp::reply::Response,)>;
 
 /// One aggregator process.
@@ -413,9 +429,12 @@ impl Node {
     /// Make the open message of `t` expire: push its deadline into the past through the repository (what the
     /// repo's `activate_open_message_expiration` does with a short timeout, but without waiting for the clock).
     pub async fn expire(&self, t: &SignedEntityType) -> StdResult<bool> {
-        let Some(mut om) = self.open_message_repository.get_open_message(t).await? else {
+        // (looked up by the epoch the entity is SIGNED in: `get_open_message` uses the entity's own epoch, which differs
+        // for CardanoStakeDistribution and would never find it)
+        let Some(om) = self.open_message_repository.get_open_message_with_single_signatures(t).await? else {
             return Ok(false);
         };
+        let mut om: mithril_aggregator::database::record::OpenMessageRecord = om.into();
         om.expires_at = Some(chrono::Utc::now() - chrono::Duration::hours(1));
         self.open_message_repository.update_open_message(&om).await?;
         Ok(true)
